@@ -175,3 +175,118 @@ Definition merged_segment (s : gfa) (path : list send) : res (string * string * 
           end
       end
   end.
+
+(* ---------- merging a path into the graph (merge_linear_path, GFA1, no redundant junctions, no tracking) ---------- *)
+Definition tag_is (n : string) (t : string) : bool := String.eqb (substring 0 2 t) n.
+
+Definition remove_tag (n : string) (tags : list string) : list string := filter (fun t => negb (tag_is n t)) tags.
+
+(* line.set(name, value): an existing tag keeps its place, a new one is appended *)
+Definition set_tag (n : string) (text : string) (tags : list string) : list string :=
+  if existsb (tag_is n) tags then map (fun t => if tag_is n t then text else t) tags else tags ++ [text].
+
+Definition has_tag_named (n : string) (l : gl) : bool := existsb (tag_is n) (g_tags l).
+
+(* the LN tag while the members are appended: it survives as long as every member has one *)
+Fixpoint running_ln (s : gfa) (a : send) (rest : list send) (ln : option Z) : res (option Z) :=
+  match rest with
+  | [] => Ok ln
+  | nb :: more =>
+      let b := inv_end nb in
+      match links_between s a b with
+      | [l] =>
+          do cut <- cut_of l ;;
+          match find_segment s (fst b) with
+          | None => Err (Foreign AttributeError)
+          | Some sb =>
+              let ln' := match ln, ln_of sb with
+                         | Some z, Some y => if Z.eqb z 0 then None else Some (z + y - Z.of_nat cut)%Z
+                         | _, _ => None
+                         end in
+              running_ln s (inv_end b) more ln'
+          end
+      | _ => Err (G EValue)
+      end
+  end.
+
+Definition merged_line (s : gfa) (path : list send) : res gl :=
+  match path with
+  | [] => Err (Foreign IndexError)
+  | a :: rest =>
+      match find_segment s (fst a) with
+      | None => Err (Foreign AttributeError)
+      | Some sa =>
+          do m <- merged_segment s path ;;
+          let '(name, sq, _) := m in
+          do ln <- running_ln s a rest (match ln_of sa with Some z => if Z.eqb z 0 then None else Some z | None => None end) ;;
+          let tags0 := remove_tag "jn" (g_tags sa) in
+          (* the LN tag: kept in place while it survives, otherwise dropped; set from the sequence at the end if missing *)
+          let tags1 := match ln with
+                       | Some z => set_tag "LN" ("LN:i:" ++ str_of_Z z) tags0
+                       | None => remove_tag "LN" tags0
+                       end in
+          let ln2 := match ln with
+                     | Some z => Some z
+                     | None => if String.eqb sq "*" then None else Some (Z.of_nat (String.length sq))
+                     end in
+          let tags2 := match ln, ln2 with
+                       | None, Some z => set_tag "LN" ("LN:i:" ++ str_of_Z z) tags1
+                       | _, _ => tags1
+                       end in
+          (* counts: removed when the merged segment has a length; otherwise every count tag met on a member is set to 0 *)
+          let members := flat_map (fun x => match find_segment s (fst x) with Some l => [l] | None => [] end) path in
+          let tags3 := match ln2 with
+                       | Some _ => remove_tag "FC" (remove_tag "RC" (remove_tag "KC" tags2))
+                       | None => fold_left (fun acc n => if existsb (has_tag_named n) members then set_tag n (n ++ ":i:0") acc else acc)
+                                           ["KC"; "RC"; "FC"] tags2
+                       end in
+          Ok (mkGl 0 KS1 [name; sq] tags3 false)
+      end
+  end.
+
+(* __link_merged: the dovetails of a chain end are re-created on the merged segment (orientation inverted when the
+   member was traversed in reverse); a link with both ends on that end moves with both *)
+Definition relink (name : string) (x : send) (reversed : bool) (l : gl) : gl :=
+  let p := g_pos l in
+  let ends := link_ends l in
+  let flip o := if reversed then (if String.eqb o "+" then "-" else "+") else o in
+  let is_to := String.eqb (nth_s 2 p) (fst x) in
+  let both := match ends with [e1; e2] => send_eqb e1 e2 | _ => false end in
+  let p1 := if is_to then [nth_s 0 p; nth_s 1 p; name; flip (nth_s 3 p)] ++ skipn 4 p else p in
+  let p2 := if negb is_to || both then [name; flip (nth_s 1 p1)] ++ skipn 2 p1 else p1 in
+  mkGl 0 KL p2 (g_tags l) false.
+
+Fixpoint dedup_gl (l : list gl) (seen : list nat) : list gl :=
+  match l with
+  | [] => []
+  | x :: r => if mem_id (g_id x) seen then dedup_gl r seen else x :: dedup_gl r (g_id x :: seen)
+  end.
+
+Definition link_merged (s : gfa) (name : string) (x : send) (reversed : bool) : res gfa :=
+  let old := dedup_gl (dov s (fst x) (snd x)) [] in
+  let new := map (relink name x reversed) old in
+  do s1 <- fold_left (fun acc l => do a <- acc ;;
+                                   match find (fun y => Nat.eqb (g_id y) (g_id l)) (lines a) with
+                                   | Some y => disconnect a y
+                                   | None => Ok a
+                                   end) old (Ok s) ;;
+  fold_left (fun acc l => do a <- acc ;; connect a l) new (Ok s1).
+
+Definition merge_path (s : gfa) (path : list send) : res gfa :=
+  match path, rev path with
+  | first :: _ :: _, last :: _ =>
+      do m <- merged_line s path ;;
+      do s1 <- connect s m ;;
+      let name := nth_s 0 (g_pos m) in
+      do s2 <- link_merged s1 name (inv_end first) (String.eqb (snd first) "L") ;;
+      do s3 <- link_merged s2 name last (String.eqb (snd last) "L") ;;
+      fold_left (fun acc x => do a <- acc ;;
+                              match find_segment a (fst x) with
+                              | Some l => disconnect a l
+                              | None => Ok a
+                              end) path (Ok s3)
+  | _, _ => Ok s
+  end.
+
+Definition merge_paths (s : gfa) (paths : list (list send)) : res gfa :=
+  fold_left (fun acc p => do a <- acc ;; merge_path a p) paths (Ok s).
